@@ -139,6 +139,17 @@ func (e *Engine) makeCtx(ti, opIdx int, gid uint64, idx int) context.Context {
 	switch spec.Kind {
 	case "cancel":
 		ctx, cancel = context.WithCancel(context.Background())
+	case "cancelCause":
+		c, cc := context.WithCancelCause(context.Background())
+		ctx, cancel = c, func() { cc(errCustomCause) }
+	case "merged":
+		// a custom Context: values from one (live) context, cancellation from another
+		live, stop := context.WithCancel(context.Background())
+		inner, ic := context.WithCancel(context.Background())
+		ctx, cancel = mergedCtx{Context: live, inner: inner}, func() { ic(); stop() }
+		_ = stop
+	case "timeoutCause":
+		ctx, cancel = context.WithTimeoutCause(context.Background(), time.Duration(spec.DNs), errCustomCause)
 	case "timeout":
 		ctx, cancel = context.WithTimeout(context.Background(), time.Duration(spec.DNs))
 	case "deadlinePast":
@@ -396,3 +407,16 @@ func ResolveLate(rs []*OpResult) {
 		r.late = nil
 	}
 }
+
+var errCustomCause = errors.New("custom cancellation cause")
+
+// mergedCtx takes its values from the embedded context and its cancellation
+// from inner: a legitimate custom Context whose Done/Err are its own.
+type mergedCtx struct {
+	context.Context
+	inner context.Context
+}
+
+func (m mergedCtx) Done() <-chan struct{}       { return m.inner.Done() }
+func (m mergedCtx) Err() error                  { return m.inner.Err() }
+func (m mergedCtx) Deadline() (time.Time, bool) { return m.inner.Deadline() }
